@@ -244,19 +244,31 @@ impl AuthOracle {
         let peer_node = w.conns[peer as usize].node;
         let key = crate::cfgs::reset_key(w.reset_key_seeds.get(&peer_node).copied().unwrap_or(0));
         let t = w.tap.lock().unwrap();
+        // RFC 9000 §10.3.1: tokens of connection IDs the endpoint has *used for sending*: the
+        // destination CIDs of the packets `inc` itself sealed
         let mut cids: BTreeSet<Vec<u8>> = BTreeSet::new();
-        for p in t.pkts.iter().filter(|p| p.enc && p.inc == peer) {
+        for p in t.pkts.iter().filter(|p| p.enc && p.inc == inc) {
             if let Ok(h) = wire::plain_header(&p.header) {
-                if !h.scid.is_empty() {
-                    cids.insert(h.scid.clone());
+                if !h.dcid.is_empty() {
+                    cids.insert(h.dcid.clone());
                 }
             }
-            let (fr, _) = wire::frames(&p.payload);
-            for f in fr {
-                if let Frame::NewConnectionId { cid, .. } = f {
-                    cids.insert(cid);
+        }
+        // ... and the one it has been told to use next: the lowest sequence number not covered
+        // by the largest retire_prior_to it has accepted (quinn switches to it at once, possibly
+        // before it has sent anything)
+        let mut known: BTreeMap<u64, Vec<u8>> = BTreeMap::new();
+        let mut max_rpt = 0u64;
+        for p in t.pkts.iter().filter(|p| !p.enc && p.ok && p.inc == inc) {
+            for f in wire::frames(&p.payload).0 {
+                if let Frame::NewConnectionId { seq, retire_prior_to, cid, .. } = f {
+                    known.insert(seq, cid);
+                    max_rpt = max_rpt.max(retire_prior_to);
                 }
             }
+        }
+        if let Some((_, cid)) = known.range(max_rpt..).next() {
+            cids.insert(cid.clone());
         }
         cids.iter().any(|cid| {
             let mut sig = vec![0u8; key.signature_len()];
@@ -342,6 +354,47 @@ impl C04Scen {
                     } else {
                         w.inject(at, d.src, d.dst, bytes, None, false, id, "random-suffix");
                         w.faults.hit("inject_random_suffix");
+                    }
+                }
+            }
+            // the token of a connection ID the peer issued but the victim has never sent to:
+            // knowing it proves nothing about the connection in use, it must not end it
+            6 => {
+                let to_server = w.ch.chance("c04.unused.to_server", 1, 2);
+                if let Some(id) = self.pick_genuine(w, Some(to_server)) {
+                    let d = w.dgrams[id as usize].clone();
+                    if d.origin_inc != NO_INC {
+                        let victim = w.conns[d.origin_inc as usize].peer;
+                        let node = w.conns[d.origin_inc as usize].node;
+                        let tok = (|| {
+                            let key = crate::cfgs::reset_key(*w.reset_key_seeds.get(&node)?);
+                            let t = w.tap.lock().unwrap();
+                            let mut issued: Vec<Vec<u8>> = Vec::new();
+                            for p in t.pkts.iter().filter(|p| p.enc && p.inc == d.origin_inc) {
+                                for f in wire::frames(&p.payload).0 {
+                                    if let Frame::NewConnectionId { cid, .. } = f {
+                                        issued.push(cid);
+                                    }
+                                }
+                            }
+                            let used: BTreeSet<Vec<u8>> = t.pkts.iter().filter(|p| p.enc && p.inc == victim).filter_map(|p| wire::plain_header(&p.header).ok().map(|h| h.dcid)).collect();
+                            let cid = issued.into_iter().rev().find(|c| !used.contains(c))?;
+                            let mut sig = vec![0u8; key.signature_len()];
+                            key.sign(&cid, &mut sig);
+                            let mut out = [0u8; 16];
+                            out.copy_from_slice(&sig[..16]);
+                            Some(out)
+                        })();
+                        if let (Some(tok), true) = (tok, victim != NO_INC) {
+                            let len = 40 + w.ch.range("c04.unused.len", 0, 200) as usize;
+                            let mut bytes = vec![0u8; len];
+                            w.ch.bytes("c04.unused.noise", &mut bytes);
+                            bytes[0] = 0x40 | (bytes[0] & 0x3f);
+                            let l = bytes.len();
+                            bytes[l - 16..].copy_from_slice(&tok);
+                            w.inject(at, d.src, d.dst, bytes, None, false, id, "unused-cid-reset-token");
+                            w.faults.hit("inject_unused_cid_reset_token");
+                        }
                     }
                 }
             }
@@ -449,7 +502,9 @@ impl Scenario for C04Scen {
         self.b.after_step(w)
     }
     fn done(&self, w: &World) -> bool {
-        self.b.done(w) && w.in_flight == 0
+        // (with connection IDs that expire every few hundred milliseconds something is always in
+        // flight: do not wait for silence longer than a few seconds)
+        self.b.done(w) && (w.in_flight == 0 || self.b.completed_at.is_some_and(|t| w.now > t + 5_000 * MS))
     }
 }
 
@@ -506,6 +561,11 @@ fn fam_forge(ch: Chooser, ctx: &RunCtx) -> RunOut {
 fn fam_multi(ch: Chooser, ctx: &RunCtx) -> RunOut {
     run(ch, ctx, BasicOpts { n_clients: 2, conns_per_client: 1, streams_max: 3, size_max: 10_000, ..Default::default() }, vec![0, 1, 1, 2, 0], 12)
 }
+/// connection IDs with a lifetime: the CID in use changes through retire_prior_to, and reset
+/// tokens of used, unused and retired CIDs are thrown at both peers
+fn fam_rotation(ch: Chooser, ctx: &RunCtx) -> RunOut {
+    run(ch, ctx, BasicOpts { allow_corrupt: false, retry: 0, cid_lifetime_ms: Some(250), cid_len_choices: vec![8, 8, 4, 20], size_max: 100_000, streams_max: 3, ..Default::default() }, vec![6, 6, 3, 2, 0], 14)
+}
 fn fam_dup_heavy(ch: Chooser, ctx: &RunCtx) -> RunOut {
     run(ch, ctx, BasicOpts { allow_drop: false, allow_corrupt: false, size_max: 200_000, streams_max: 2, ..Default::default() }, vec![0], 30)
 }
@@ -514,9 +574,10 @@ pub fn spec() -> PropSpec {
     PropSpec {
         id: "C04",
         families: vec![
-            Family { name: "replay-corrupt", f: fam_replay, weight: 40 },
+            Family { name: "replay-corrupt", f: fam_replay, weight: 30 },
             Family { name: "forged-unauthenticated", f: fam_forge, weight: 30 },
-            Family { name: "cross-connection", f: fam_multi, weight: 20 },
+            Family { name: "cross-connection", f: fam_multi, weight: 15 },
+            Family { name: "cid-rotation", f: fam_rotation, weight: 15 },
             Family { name: "replay-long-transfer", f: fam_dup_heavy, weight: 10 },
         ],
         quick_worlds: 20_000,
